@@ -110,6 +110,7 @@ func (ex *Exec) load(st *State, p Value, t types.Type, pc *Term, pos token.Pos) 
 				return FreshV(t, "deref")
 			}
 			ex.oblige("nil", "deref "+fieldPathName(x.Root, x.Path), pos, pc, Neq(x.Ref, RefNil()), "pointer is not nil")
+			ex.guardedAccess(st, x, false, pc, pos)
 			v := st.heapLoad(x.Root, x.Path, x.Ref)
 			ex.wellFormed(st, v, pc)
 			return v
